@@ -132,6 +132,27 @@ impl Node {
 //@|             && final(end_p_indices).my_child_index_in_parent_at_index == old(end_p_indices).my_child_index_in_parent_at_index, // [frame]
 //@end
 
+//@extract fn Node::remove_parent!never_linked
+//@ file: src/node.rs
+//@ impl: impl ErasedNode for Node
+//@ name: remove_parent
+//@ as: fn remove_parent__of_an_edge_the_parent_never_recorded(&mut self, child_index: i32, parent_ref: &Node, parent_indices: &mut ParentChildIndices, end_p_indices: &mut ParentChildIndices)
+//@ cells@child: parent_child_indices, parents
+//@ tracing: yes
+//@ rule R5p: `let parent_indices_cell = parent.parent_child_indices();` => `` x1
+//@ rule R5p: `let mut parent_indices = parent_indices_cell.borrow_mut();` => `` x1
+//@ rule R5p: `drop(parent_indices);` => `` x*
+//@ rule R5p: `let end_p_indices_cell = end_p.parent_child_indices();` => `` x*
+//@ rule R5p: `let mut end_p_indices = end_p_indices_cell.borrow_mut();` => `` x*
+//@ props: C19 C13 C11
+//@ contract:
+//@|     requires
+//@|         child_index >= 0,
+//@|         child_index >= old(parent_indices).my_parent_index_in_child_at_index@.len(),   // the parent was torn down before it linked this input (e.g. a panic while it became necessary)
+//@|     ensures
+//@|         *final(self) == *old(self) && *final(parent_indices) == *old(parent_indices) && *final(end_p_indices) == *old(end_p_indices), // [tearing-down-a-half-linked-node-touches-nothing-and-does-not-panic]
+//@end
+
 //@extract fn Node::expert_swap_children_except_in_kind
 //@ file: src/node.rs
 //@ impl: impl ErasedNode for Node
